@@ -535,7 +535,8 @@ pub fn orchestrate(p: &Property, tier: Tier, only_sub: Option<&str>) -> i32 {
                 continue;
             }
         }
-        let n = (sub.shards)(tier).max(1);
+        // 0 shards = this part does not run in this tier
+        let n = (sub.shards)(tier);
         for shard in 0..n {
             jobs.push(Job { sub: si, shard, nshards: n });
         }
@@ -835,4 +836,97 @@ pub fn orchestrate(p: &Property, tier: Tier, only_sub: Option<&str>) -> i32 {
     } else {
         0
     }
+}
+
+// ---------------------------------------------------------------------------
+// coverage-guided engine (libFuzzer through cargo-fuzz); thorough tier only
+
+/// Runs one libFuzzer campaign of `target` (built by verif.sh with `cargo +nightly fuzz build`)
+/// for the properties in `props`. The target decodes bytes into the same case type and calls the
+/// same interpreter + oracle as the proptest engine; a violation aborts the target after it wrote
+/// the decoded case as a replay file.
+pub fn run_fuzz(ctx: &ShardCtx, target: &str, props: &str) -> ShardResult {
+    let mut stats = Stats::default();
+    let bin = Path::new(VERIF_DIR).join("harness/fuzz/target/x86_64-unknown-linux-gnu/release").join(target);
+    if !bin.exists() {
+        stats.label("fuzz_target_not_built_(engine_skipped)");
+        return ShardResult { stats, failure: None };
+    }
+    let dir = run_dir(ctx.prop).join(format!("fuzz-{}-{}", target, ctx.shard));
+    let _ = std::fs::remove_dir_all(&dir);
+    let corpus = dir.join("corpus");
+    let _ = std::fs::create_dir_all(&corpus);
+    // seed corpus: pseudo-random byte strings of several lengths (libFuzzer ramps length slowly from empty)
+    let mut x = ctx.shard_seed(77) | 1;
+    for i in 0..48 {
+        let len = 40 + (i * 37) % 1200;
+        let bytes: Vec<u8> = (0..len)
+            .map(|_| {
+                x ^= x << 13;
+                x ^= x >> 7;
+                x ^= x << 17;
+                (x >> 24) as u8
+            })
+            .collect();
+        let _ = std::fs::write(corpus.join(format!("seed-{}", i)), bytes);
+    }
+    let runs: u64 = std::env::var("VERIF_FUZZ_RUNS").ok().and_then(|s| s.parse().ok()).unwrap_or(ctx.tier.pick(20_000, 300_000));
+    let stats_file = dir.join("stats.json");
+    let replay_file = dir.join("violation.json");
+    let out = Command::new(&bin)
+        .arg(&corpus)
+        .arg(format!("-runs={}", runs))
+        .arg(format!("-seed={}", (ctx.shard_seed(78) % 0x7fff_ffff) + 1))
+        .arg("-len_control=0")
+        .arg("-max_len=3000")
+        .arg("-print_final_stats=1")
+        .arg(format!("-artifact_prefix={}/", dir.display()))
+        .env("VERIF_FUZZ_PROPS", props)
+        .env("VERIF_FUZZ_STATS", &stats_file)
+        .env("VERIF_FUZZ_REPLAY", &replay_file)
+        .env("VERIF_FUZZ_RUNS", runs.to_string())
+        .stdin(Stdio::null())
+        .output();
+    let out = match out {
+        Ok(o) => o,
+        Err(e) => {
+            return ShardResult { stats, failure: Some(Failure { violation: Violation::new("INFRA", "fuzz-spawn", e.to_string()), case: Value::Null }) };
+        }
+    };
+    if let Some(v) = std::fs::read(&stats_file).ok().and_then(|b| serde_json::from_slice::<Value>(&b).ok()) {
+        stats.evaluations = v["evaluations"].as_u64().unwrap_or(0);
+        if let Some(hs) = v["hashes"].as_array() {
+            stats.nontrivial = hs.iter().filter_map(|h| h.as_u64()).collect();
+        }
+        stats.label_n("nontrivial_cases_counted_by_target", v["distinct_nontrivial"].as_u64().unwrap_or(0));
+    }
+    let err = String::from_utf8_lossy(&out.stderr).to_string();
+    for l in err.lines() {
+        if let Some(n) = l.strip_prefix("stat::number_of_executed_units:") {
+            stats.label_n("libfuzzer_executed_units", n.trim().parse().unwrap_or(0));
+        }
+        if let Some(n) = l.strip_prefix("stat::new_units_added:") {
+            stats.label_n("libfuzzer_new_units", n.trim().parse().unwrap_or(0));
+        }
+    }
+    stats.label("libfuzzer_campaign");
+    if out.status.success() {
+        return ShardResult { stats, failure: None };
+    }
+    // a violation written by the target, or a crash / sanitizer report
+    if let Some(v) = std::fs::read(&replay_file).ok().and_then(|b| serde_json::from_slice::<Value>(&b).ok()) {
+        let viol = Violation::new(v["property"].as_str().unwrap_or(ctx.prop), v["signature"].as_str().unwrap_or("fuzz"), format!("[libFuzzer] {}", v["message"].as_str().unwrap_or("")));
+        return ShardResult { stats, failure: Some(Failure { violation: viol, case: v["case"].clone() }) };
+    }
+    let tail: String = err.lines().rev().take(12).collect::<Vec<_>>().into_iter().rev().collect::<Vec<_>>().join(" | ");
+    let asan = err.contains("AddressSanitizer") || err.contains("SEGV") || err.contains("deadly signal");
+    let viol = if asan {
+        Violation::new(ctx.prop, "fuzz-crash", format!("[libFuzzer] the target crashed (sanitizer / signal): {}", tail))
+    } else {
+        Violation::new("INFRA", "fuzz-exit", format!("fuzz target exited with {}: {}", out.status, tail))
+    };
+    // keep the crashing input next to the replay
+    let artifact = std::fs::read_dir(&dir).ok().and_then(|rd| rd.filter_map(|e| e.ok()).map(|e| e.path()).find(|p| p.file_name().map(|n| n.to_string_lossy().starts_with("crash-")).unwrap_or(false)));
+    let case = artifact.and_then(|p| std::fs::read(p).ok()).map(|b| json!({"libfuzzer_input_bytes": b})).unwrap_or(Value::Null);
+    ShardResult { stats, failure: Some(Failure { violation: viol, case }) }
 }
